@@ -16,7 +16,14 @@ import (
 // DESIGN 7.2). What is judged is the next time: "a failed resolution is not cached ... a retry
 // behaves like a first attempt" - the next construction of the consumer (another resolution, a
 // fresh scope) asks the provider again and, the provider succeeding, receives its instance.
-func RunOptionalRetry(c *eng.Ctx, next func() (int, bool)) {
+func RunOptionalRetry(c *eng.Ctx, next func() (int, bool)) { runOptionalRetry(c, "C15", next) }
+
+// RunOptionalRetryC03: the same histories judged for C03 - whatever a consumer receives in its
+// optional slot while the transient provider is failing, it is never an instance that an earlier
+// construction already received.
+func RunOptionalRetryC03(c *eng.Ctx, next func() (int, bool)) { runOptionalRetry(c, "C03", next) }
+
+func runOptionalRetry(c *eng.Ctx, prop string, next func() (int, bool)) {
 	type tc struct {
 		prov, cons string
 		pl, cl     godi.Lifetime
@@ -87,10 +94,32 @@ func RunOptionalRetry(c *eng.Ctx, next func() (int, bool)) {
 						}
 					}
 					c.R.Count("optional_retry_slots_checked", int64(checked))
+					if prop == "C03" {
+						fs = nil
+						if t.pl == godi.Transient {
+							seen := map[int64]int{}
+							for _, run := range o.Runs {
+								if run.Reg != consReg || run.ExitSeq == 0 {
+									continue
+								}
+								for k, b := range m.Regs[consReg].Binds {
+									if b.Kind != BindSingle || !b.Dep.Optional || k >= len(run.Args) || run.Args[k].Kind != 'i' || m.Regs[b.Targets[0].Reg].Life != godi.Transient {
+										continue
+									}
+									id := run.Args[k].IDs[0]
+									if first, dup := seen[id]; dup {
+										fs = append(fs, Finding{"handed-out-twice", "transient:optional-slot-while-the-provider-fails", fmt.Sprintf("invocation %d of %s received in its optional slot %d the transient instance %s that invocation %d had already received (the transient's constructor did not run for it)", run.Nth, m.Describe(consReg), k, o.InstName(id), first)})
+									} else {
+										seen[id] = run.Nth
+									}
+								}
+							}
+						}
+					}
 				}
-				report(c, "C15", idx, r, fs)
+				report(c, prop, idx, r, fs)
 				c.R.Count("optional_retry_cases", 1)
-				c.R.End(idx, eng.Hash("c15-optional-retry", ci, nth, int(kind)), true)
+				c.R.End(idx, eng.Hash("optional-retry", prop, ci, nth, int(kind)), true)
 			}
 		}
 	}
